@@ -236,7 +236,7 @@ def run(ctx):
     for size in range(1, maxset + 1):
         base = list(range(1, size + 1))
         for orders in itertools.permutations(base):
-            kinds = [('U', None), ('D', None)] + [(d, n) for d in 'UD' for n in base + [size + 1]]
+            kinds = [('U', None), ('D', None)] + [(d, n) for d in 'UD' for n in [0] + base + [size + 1]]
             maxlen = 3 if size <= 2 else 2
             for ln in range(1, maxlen + 1):
                 for seq in itertools.product(kinds, repeat=ln):
@@ -252,7 +252,7 @@ def run(ctx):
     for _ in range(ctx.budget(1500, 60000)):
         size = rng.randint(1, 4)
         orders = rng.sample([1, 2, 3, 4, 5, 7], size)
-        kinds = [('U', None), ('D', None)] + [(d, n) for d in 'UD' for n in orders + [6]]
+        kinds = [('U', None), ('D', None)] + [(d, n) for d in 'UD' for n in orders + [6, 0]]      # (0: a number no migration has)
         reqs = []
         for _ in range(rng.randint(1, 6)):
             r = pick(rng, kinds)
@@ -301,10 +301,24 @@ def _sql_and_mongo(ctx, out, rng):
     from sqlalchemy import inspect
     from vakt.storage.sql.model import Base
     import vakt.storage.sql.migrations as sqlmig
-    for _ in range(ctx.budget(40, 1000)):
-        engine = stores.make_engine('sqlite://')
+    import tempfile, shutil, os
+    tmpd = tempfile.mkdtemp(prefix='vakt-c18-')
+    for it in range(ctx.budget(40, 1000)):
+        # a database file: the version "recorded in the database" is what ANOTHER connection reads after the request
+        url = 'sqlite:///' + os.path.join(tmpd, 'm%d.sqlite' % it)
+        engine = stores.make_engine(url)
         from sqlalchemy.orm import sessionmaker, scoped_session
         from vakt.storage.sql import SQLStorage
+
+        def read_elsewhere():
+            e2 = stores.make_engine(url)
+            try:
+                ms2 = SQLMigrationSet(SQLStorage(scoped_session(sessionmaker(bind=e2))))
+                v = ms2.last_applied()
+                ms2.storage.session.remove()
+                return v, 'vakt_policies' in inspect(e2).get_table_names()
+            finally:
+                e2.dispose()
 
         def mk():
             return SQLMigrationSet(SQLStorage(scoped_session(sessionmaker(bind=engine))))
@@ -347,8 +361,7 @@ def _sql_and_mongo(ctx, out, rng):
                     tables = d == 'U'
                 if fault is None:
                     version = 1 if d == 'U' else 0
-            recorded = mk().last_applied()
-            has_tables = 'vakt_policies' in inspect(engine).get_table_names()
+            recorded, has_tables = read_elsewhere()
             out.evaluations += 1
             out.count('sql-set')
             if crashed or raised != exp_raised or recorded != version or has_tables != tables:
@@ -361,6 +374,13 @@ def _sql_and_mongo(ctx, out, rng):
                 out.failures.append(f)
                 break
         out.nontriv('sql ' + ' '.join(hist))
+        for ms in sets.values():
+            try:
+                ms.storage.session.remove()
+            except Exception:
+                pass
+        engine.dispose()
+    shutil.rmtree(tmpd, ignore_errors=True)
     # Mongo set on the fake: whole-set and by-number requests, version and index set vs. the model's schema
     for _ in range(ctx.budget(25, 500)):
         client = FakeMongoClient(pick(rng, ['4.0.0', '4.4.0']))
